@@ -614,10 +614,23 @@ func retract(users []*Package, name string, vv *VarVal, fi *FuncInfo, alive bool
 			if vv != nil && vv.Pkg != u && u.vars[name] == vv && !(alive && u.reaches(vv.Pkg)) {
 				delete(u.vars, name)
 				hit = true
+				// Another used package may export the same name.
+				for _, p := range u.Uses {
+					if xv := p.vars[name]; xv != nil && xv != vv && xv.Export && (xv.Pkg == p || u.reaches(xv.Pkg)) {
+						u.vars[name] = xv
+						break
+					}
+				}
 			}
 			if fi != nil && fi.Pkg != u && u.funcs[name] == fi && !(alive && u.reaches(fi.Pkg)) {
 				delete(u.funcs, name)
 				hit = true
+				for _, p := range u.Uses {
+					if xf := p.funcs[name]; xf != nil && xf != fi && xf.Export && (xf.Pkg == p || u.reaches(xf.Pkg)) {
+						u.funcs[name] = xf
+						break
+					}
+				}
 			}
 		}
 		next := append([]*Package{}, u.Users...)
